@@ -119,6 +119,18 @@ def c04(ctx):
                    note="monitor profile (release + debug assertions + overflow checks), catch_unwind per case, process status per shard")]
 
 
+def c05(ctx):
+    return [Native("roundtrip", "c05")]
+
+
+def c06(ctx):
+    return [Native("faults", "c06")]
+
+
+def c07(ctx):
+    return [SelfTest(), Native("differential", "c07")]
+
+
 PROPS = {
     "C01": {
         "level": "exploration",
@@ -159,5 +171,30 @@ PROPS = {
         "technique": "runtime no-panic monitor over hostile generated inputs, plus Miri and valgrind memcheck on the same workload",
         "stages": c04,
         "floor": {"quick": 100000, "thorough": 1000000},
+    },
+    "C05": {
+        "level": "exploration",
+        "level_text": "Round-trip oracle for PIE wraps, password wraps and key seals on all six backends with the library's own randomness: grids over wrapped keys (local and secret, edge keys), wrapping keys, passwords (empty, NUL, 1 KiB, non-UTF-8), in-budget and default cost parameters and several recipients, plus thousands of repeated operations per kind so that rare RNG outcomes (RSA-KEM ciphertexts and ephemeral keys with leading zero bytes) are observed; every body length is compared with the format's fixed length.",
+        "level_note": "Trusted: the harness's length table (from the PASERK layouts) and base64 codec. Default-cost password wraps are exercised a few times per backend only (cost).",
+        "technique": "runtime round-trip and length monitor over seeded + repeated-randomness workloads",
+        "stages": c05,
+        "floor": {"quick": 20000, "thorough": 200000},
+    },
+    "C06": {
+        "level": "fault_enumeration",
+        "level_text": "For wrapped/sealed blobs of every kind on every backend: every single-bit flip of every byte, truncation to every length, extensions, every other kind's header over the same body within the backend and across all version pairs with the same secrets, wrong wrapping keys, passwords and recipients; each must return Err and never a key. Exhaustive per blob for the listed fault classes (k1.seal bit flips sampled 1/8 in quick because each costs an RSA-4096 private operation).",
+        "level_note": "Trusted: blob surgery with the independent base64 codec. Parameter flips that leave the stated KDF budget are skipped and counted.",
+        "technique": "runtime rejection monitor over exhaustively enumerated blob corruptions and secret substitutions",
+        "stages": c06,
+        "floor": {"quick": 50000, "thorough": 100000},
+    },
+    "C07": {
+        "level": "exploration",
+        "level_text": "Differential monitor for PASERK: every PIE / password-wrapped blob the library produces is re-derived bit for bit by a reference model (other primitive family) from the nonce and salt it embeds; every sealed key is opened by the reference with the recipient secret; reference-built blobs (all-zero / all-ones nonces and salts, AES counter blocks that wrap 64 bits, a grid of in-budget KDF parameters) must unwrap to the same key; sibling backends unwrap each other's output.",
+        "level_note": "Trusted: reference models, self-tested against all official vectors per run. libsodium cannot express Argon2 parallelism != 1, so for those parameters the RustCrypto Argon2 serves both sides (counted in the evidence).",
+        "technique": "runtime differential monitor against an independent reference model and sibling backends",
+        "stages": c07,
+        "floor": {"quick": 8000, "thorough": 100000},
+        "assumptions": ["AES-CTR uses a 128-bit big-endian counter (OpenSSL aes-256-ctr); Argon2 memory in bytes is rounded down to KiB as libsodium does"],
     },
 }
